@@ -1,5 +1,5 @@
 (* driver.ml — line protocol for the lock model (engine locks, C13).
-   input  : <id> mixed <ns> <nd> <rcpts> <jitter seed> <order>      output : <id> <streams> <verdict>
+   input  : <id> mixed[:<mech>:<warm>] <ns> <nd> <rcpts> <jitter seed> <order>      output : <id> <streams> <verdict>
    streams: connection 0 first, then the private connections in goroutine order, separated by ';';
    items separated by ','; an item is the verb letter followed by the message id when there is one. *)
 open Util
@@ -25,7 +25,10 @@ let stream_text (s : M.n list list) : string =
 
 let run (toks : string list) : string =
   match toks with
-  | "mixed" :: ns :: _nd :: rcpts :: _seed :: order :: _ ->
+  | kind :: ns :: _nd :: rcpts :: _seed :: order :: _
+    when String.length kind >= 5 && String.sub kind 0 5 = "mixed" ->
+      (* kind = mixed | mixed:<auth mechanism>:<warm-up>; the AUTH exchange is not part of the compared
+         stream (it is checked by the harness oracle), so the model run is the same *)
       let rc = List.map nat_of_int (ints_of_csv rcpts) in
       let ord = List.map nat_of_int (ints_of_csv order) in
       let ((shared, priv), fin) = M.model_mixed (nat_of_int (int_of_string ns)) rc ord in
